@@ -7,7 +7,7 @@ CONSTANTS
   Persistent = TRUE
   StartupScrub = TRUE
   EraseOnLookup = FALSE
-  CleanFailedWrite = TRUE
+  CleanFailedWrite = FALSE
   ListRaw = FALSE
 INVARIANTS C01_ReadExact C01_NoEarlyLoss C04_FileImpliesLive C04_NoDeadFileAfterSweep C04_WipeBeforeUnlink
 VIEW View
